@@ -983,6 +983,14 @@ impl Graph {
         // Note that we only hold the plan lock while creating the plan,
         // not while executing the model.
         let mut cached_plan = self.cached_plan.lock().unwrap();
+        #[cfg(rten_verif)]
+        verif_plan_log::record(
+            inputs,
+            outputs,
+            cached_plan
+                .as_ref()
+                .is_some_and(|plan| plan.matches(inputs, outputs)),
+        );
         let plan = match cached_plan.as_ref() {
             Some(plan) if plan.matches(inputs, outputs) => plan.clone(),
             _ => {
@@ -1643,6 +1651,39 @@ impl Graph {
 impl Default for Graph {
     fn default() -> Self {
         Self::new()
+    }
+}
+
+/// Verification hook (only with `--cfg rten_verif`): log of the plan cache's
+/// critical sections in lock order, as `(inputs, outputs, cache hit)`.
+#[cfg(rten_verif)]
+#[doc(hidden)]
+pub mod verif_plan_log {
+    use super::NodeId;
+    use std::sync::Mutex;
+
+    pub type Entry = (Vec<NodeId>, Vec<NodeId>, bool);
+
+    static LOG: Mutex<Option<Vec<Entry>>> = Mutex::new(None);
+
+    /// Start (or restart) logging with an empty log.
+    pub fn start() {
+        *LOG.lock().unwrap_or_else(|e| e.into_inner()) = Some(Vec::new());
+    }
+
+    /// Stop logging and return the entries recorded since `start`.
+    pub fn take() -> Vec<Entry> {
+        LOG.lock()
+            .unwrap_or_else(|e| e.into_inner())
+            .take()
+            .unwrap_or_default()
+    }
+
+    /// Called with the plan cache mutex held.
+    pub(super) fn record(inputs: &[NodeId], outputs: &[NodeId], hit: bool) {
+        if let Some(log) = LOG.lock().unwrap_or_else(|e| e.into_inner()).as_mut() {
+            log.push((inputs.to_vec(), outputs.to_vec(), hit));
+        }
     }
 }
 
